@@ -4,8 +4,8 @@
    case  = (wcfg, wobs)
    wcfg  = (pipelines, connectors)
            pipeline  = ((signal, name), (receivers, (processors, exporters)))   ids are nat
-           connector = (id, supported (exporter signal, receiver signal) pairs)
-   wobs  = (validate_ok, (class, (detail, (created, (started, (deliveries, routers))))))
+           connector = (id, (factory is an xconnector.Factory, requested (exporter signal, receiver signal) pairs))
+   wobs  = (validate_ok, (class, (detail, (created, (started, (deliveries, (deliveries_ro, routers)))))))
            class      0 built | 1 "connector ... not used in any supported ..." | 2 "cycle detected" | 3 panic
            detail     class 1: [(side 0 exporter / 1 receiver, (signal, (0, connector id)))]
                       class 2: the reported cycle (processor / connector nodes)
@@ -13,6 +13,7 @@
            started    node keys of the components whose Start ran  (multiset)
            deliveries per receiver node: the (exporter node, trail of processor/connector nodes)
                       of every datum that arrived anywhere after one injection    (multiset)
+           deliveries_ro  the same after injecting a payload marked READ-ONLY (shared)
            routers    per connector instance: the pipeline ids its router offers       (multiset)
    wnode = (kind, (a, (b, id)))  0 Recv a=signal | 1 Proc (a,b)=pipeline | 2 Exp a=signal
                                  3 Conn a=exporter signal b=receiver signal | 4 Cap | 5 Fan *)
@@ -20,10 +21,10 @@ From Verif Require Import Common.Base C09.Model.
 
 Definition wnode := (nat * (nat * (nat * nat)))%type.
 Definition wpipe := ((nat * nat) * (list nat * (list nat * list nat)))%type.
-Definition wcfg := (list wpipe * list (nat * list (nat * nat)))%type.
+Definition wcfg := (list wpipe * list (nat * (bool * list (nat * nat))))%type.
 Definition wdeliv := (wnode * list (wnode * list wnode))%type.
 Definition wrouter := (wnode * list (nat * nat))%type.
-Definition wobs := (bool * (nat * (list wnode * (list wnode * (list wnode * (list wdeliv * list wrouter))))))%type.
+Definition wobs := (bool * (nat * (list wnode * (list wnode * (list wnode * (list wdeliv * (list wdeliv * list wrouter)))))))%type.
 
 Definition node_of_w (w : wnode) : node :=
   let '(k, (a, (b, i))) := w in
@@ -71,22 +72,25 @@ Definition model_routers (g : graph) : list (node * list pid) :=
   map (fun n => (n, router_pids g n)) (filter is_connector (g_nodes g)).
 
 Definition check_case (cs : wcfg * wobs) : bool :=
-  let '(wc, (vok, (cls, (detail, (wcreated, (wstarted, (wdel, wrt))))))) := cs in
+  let '(wc, (vok, (cls, (detail, (wcreated, (wstarted, (wdel, (wdelro, wrt)))))))) := cs in
   let c := cfg_of_w wc in
   let r := build c in
   let crt := map node_of_w wcreated in
   let std := map node_of_w wstarted in
-  let del := map (fun d => (node_of_w (fst d), map (fun x => (node_of_w (fst x), map node_of_w (snd x))) (snd d))) wdel in
+  let conv := map (fun d : wdeliv => (node_of_w (fst d), map (fun x => (node_of_w (fst x), map node_of_w (snd x))) (snd d))) in
+  let del := conv wdel in
+  let delro := conv wdelro in
   Bool.eqb (validate c) vok && Nat.eqb (class_of r) cls &&
   match r with
   | Ok g =>
       perm_eqb node_eqb (created g) crt &&
       perm_eqb node_eqb (created g) std &&
       perm_eqb (fun a b => node_eqb (fst a) (fst b) && perm_eqb deliv_eqb (snd a) (snd b)) (model_deliveries g) del &&
+      perm_eqb (fun a b => node_eqb (fst a) (fst b) && perm_eqb deliv_eqb (snd a) (snd b)) (model_deliveries g) delro &&
       perm_eqb (fun a b => node_eqb (fst a) (fst b) && perm_eqb pid_eqb (snd a) (snd b)) (model_routers g)
                (map (fun r => (node_of_w (fst r), snd r)) wrt)
   | Err e =>
-      is_nil crt && is_nil std && is_nil del && is_nil wrt &&
+      is_nil crt && is_nil std && is_nil del && is_nil delro && is_nil wrt &&
       match e with
       | EUnsupported =>
           match detail with
